@@ -102,6 +102,9 @@ def compare_queries(real, twin, locs, counters):
     return problems
 
 
+STOP = object()
+
+
 def followup(real, twin, op, counters):
     out = []
     for who, rn in (("real", real), ("twin", twin)):
@@ -117,6 +120,13 @@ def followup(real, twin, op, counters):
     (ea, ra, ca, xa), (eb, rb, cb, xb) = out
     if ea != eb:
         return "follow-up %s: real %s, fresh manager %s" % (op[0], xa or "returned", xb or "returned")
+    if ea is not None:
+        # both raised the same error while recomputing: which tasks ran before the raising one
+        # depends on which valid order each manager chose, so neither the run sets nor the
+        # partially updated contents are comparable; the follow-ups end here
+        counters["followups_ended_by_same_exception_on_both"] = \
+            counters.get("followups_ended_by_same_exception_on_both", 0) + 1
+        return STOP
     if ra != rb:
         return "follow-up %s ran different tasks: real %s, fresh %s" % (op[0], ra, rb)
     if ca != cb:
@@ -223,6 +233,8 @@ def run_history(rng, counters, digests, samples, violations, known, nops, world_
             continue
         fups.append(op)
         why = followup(real, twin, op, counters)
+        if why is STOP:
+            return
         if why:
             report(why, followups=fups)
             return
